@@ -97,6 +97,22 @@ func runC08(p *Prog, r *Report) {
 		if f.OK() {
 			st := f.Ev("store", t[1])
 			r.Check(len(st) == 1 && strings.HasSuffix(st[0].Args[0], ".Header[:0]"), R, "bus."+t[0]+"-strips-header", st.Pos(p), "header truncated", "cooked BUS "+t[0]+" does not discard the header (a received pipe id would exclude/route by a stale id)")
+			if len(st) == 1 && t[0] == "SendMsg" {
+				// whatever its length: xbus strips a 4-byte header only, so a header of any
+				// other length would go on the wire in front of the body
+				hl := "len(arg1.Header)"
+				dom := map[string][]int64{hl: {0, 1, 3, 4, 5, 8, 12}}
+				res := ComparePred(st[0].In.Block(), dom, nil, func(env map[string]int64) bool { return env[hl] > 0 })
+				if !res.OK && res.Undec == "" {
+					res = ComparePred(st[0].In.Block(), dom, nil, func(env map[string]int64) bool { return true })
+				}
+				switch {
+				case res.Undec != "":
+					r.Unk(R, "bus.SendMsg-strips-any-header", st.Pos(p), "cannot evaluate when the header is discarded: "+res.Undec)
+				default:
+					r.Check(res.OK, R, "bus.SendMsg-strips-any-header", st.Pos(p), "a header of any length is discarded", "cooked BUS SendMsg keeps a stale header of some lengths ("+res.Counter+"): xbus strips only a 4-byte header, the rest goes on the wire in front of the body")
+				}
+			}
 		}
 	}
 	if f := q.Fn(R, "protocol/bus", "socket", "RecvMsg"); f.OK() {
